@@ -748,6 +748,8 @@ func runC17(c *Ctx) {
 		{0xfb, 0, 0, 0, 0, 0, 0, 0, 1},                         // 5e-324
 		{0xfa, 0, 0, 0, 1},
 		{0xf9, 0x3c, 0x00},
+		{0xf9, 0x80, 0x00}, {0xf9, 0x00, 0x00}, {0xf9, 0x00, 0x01}, {0xf9, 0x7c, 0x00}, {0xf9, 0xfe, 0x00}, // half floats
+		{0xbf, 0x61, 0x6b, 0xf9, 0x80, 0x00, 0xff}, {0xc1, 0xf9, 0x80, 0x00}, {0x81, 0xf9, 0x80, 0x00},
 		{0xbf, 0x61, 0x61, 0xff}, // break after a key
 		{0x9f, 0x01, 0x02},       // missing break
 		{0xff},
@@ -818,6 +820,10 @@ func runC17(c *Ctx) {
 				}
 			}
 			prefixes = append(prefixes, []byte{0xd8, 0x3f}, []byte{0xd9, 0x01}, []byte{0xc1, 0x18}, []byte{0xc1, 0x38}, []byte{0x9f, 0xff}, []byte{0xbf, 0x60})
+			// half-precision floats (the decoder rejects them today): zeros, subnormals, one, infinities, NaNs of both signs
+			for _, b := range []byte{0x00, 0x80, 0x01, 0x03, 0x83, 0x3c, 0xbc, 0x7b, 0x7c, 0xfc, 0x7e, 0xfe} {
+				prefixes = append(prefixes, []byte{0xf9, b})
+			}
 		}
 		for _, p := range prefixes {
 			tb := newTables()
@@ -860,6 +866,27 @@ func runC17(c *Ctx) {
 			}
 			if o.Cls != clsOk || bytes.Count(o.Out, []byte("\n")) < len(evs) {
 				c.Violate(Violation{Key: "valid-stream-rejected", Monitor: "valid-stream-decodes", Desc: "a stream written by the binary encoder does not decode cleanly: " + o.Msg, Case: map[string]interface{}{"input_hex": hexs(in)}, Observed: string(truncB(o.Out, 300))})
+			}
+		}
+		// directed: valid events whose payloads are around and beyond the buffer sizes of readers and pools
+		// (4 KiB bufio.Reader, 64 KiB pooled buffers), followed by an ordinary event
+		for li, n := range []int{4095, 4096, 4097, 5000, 9000, 40000, 70000} {
+			w := &capture{}
+			l := zerolog.New(w)
+			pay := strings.Repeat("payload-", n/8+1)[:n]
+			switch li % 3 {
+			case 0:
+				l.Info().Str("s", pay).Int("after", 1).Msg("long")
+			case 1:
+				l.Info().Bytes("b", []byte(pay)).Msg(pay[:n/2])
+			default:
+				l.Info().Dict("d", zerolog.Dict().Str("s", pay)).Strs("ss", []string{pay, "x"}).Msg("long")
+			}
+			l.Warn().Str("k", "v").Msg("next")
+			in := bytes.Join(w.bufs, nil)
+			o := r.one(in, "valid-long-payload", n <= 9000)
+			if o.Cls != clsOk || bytes.Count(o.Out, []byte("\n")) != 2 || !bytes.Contains(o.Out, []byte(`"message":"next"`)) {
+				c.Violate(Violation{Key: "valid-stream-rejected", Monitor: "valid-stream-decodes", Desc: fmt.Sprintf("a stream written by the binary encoder (one field of %d bytes, then an ordinary event) does not decode cleanly into two lines: %s", n, o.Msg), Case: map[string]interface{}{"payload_bytes": n, "input_len": len(in)}, Observed: string(truncB(o.Out, 200))})
 			}
 		}
 		for i := 0; i < nmut; i++ {
